@@ -31,9 +31,13 @@ CLAIMED = {
         'from(i64/i32) == n mod P, + - * neg are the operations of Z/P without overflow, inverse (extended Euclid, the one loop) returns the '
         'multiplicative inverse for every prime P <= 3037000499, / is the field quotient; plus bit-precise complete Kani proofs for P in '
         '{2, 3, 61, 3037000493} that supply concrete counterexamples.  Unit row_echelon adds, for both echelon constructors (RowEchelonVecMatrix::new and its const-generic twin '
-        'RowEchelonMatrix::new), for every shape: no index or assertion can fail, rank <= min(rows, columns), pivot columns strictly increasing.',
+        'RowEchelonMatrix::new), for every shape and every Entry type meeting the trait contracts of pivot_row / clear_col: no index or assertion can fail, rank <= min(rows, columns), '
+        'and the result is in ROW ECHELON FORM (pivot columns strictly increasing, every pivot non-zero with zeros to its left, every row from rank on zero); the real index / index_mut / swap_rows '
+        'bodies of both matrix types are proved (values, with frame); i64::pivot_row and PrimeResidueClass::{pivot_row, clear_col, zero, is_zero} are proved to meet the trait contracts.',
    note='Trusted: Verus+Z3, vstd arithmetic lemmas, Kani/CBMC; domain assumption on the const generic P (2 <= P <= 3037000499, P prime = what valid() '
-        'accepts); num_traits Zero/One impls, valid() (f64) and the p-adic solver are not under contract; exact rank/determinant/null space/solve are not decided.',
+        'accepts); ASSUMED: <i64 as Entry>::clear_col meets the trait contract (its gcdx arithmetic overflows for large entries: machine arithmetic would have to be treated as mathematical), '
+        'the derived Clone of both matrix types returns the same entries, identity() for its shape; BigRational / f64 entries are not extracted; valid() (f64) and the p-adic solver are not under contract; '
+        'the echelon contract does not say that the result is row-equivalent to the input, so the exact VALUE of rank/determinant/null space/solve is decided by the bounded stand-in only.',
    ref='5 C18', technique=TECH + '; Kani (CBMC) loop-free harnesses for instantiated moduli'),
  'C02': dict(
    text='Unbounded proof (Verus/Z3) over the real bodies of PartialDSet, SimpleDSet, collect_orbits, PartialDSym and SimpleDSym: the involution '
@@ -43,7 +47,7 @@ CLAIMED = {
         'least positive number of steps of (operation i, then operation j) leading from d back to d, None out of range or where the walk leaves the defined operations. '
         'Orbit indices separate orbits (equal index only on one (i,i+1)-orbit; index ranges of different i disjoint). The trait DSym with the laws v constant on orbits and '
         'm = r*v for whatever n is the least return time, proved for both implementors; the conversions as_dset, as_dsym, as_partial_dsym (real bodies): same operations, '
-        'v = 1 resp. the same v and the same m. is_loopless (no operation fixes a chamber), orientations_match, is_weakly_oriented (every edge passes the test against '
+        'v = 1 resp. the same v and the same m. orbit_reps_2d lists exactly one representative of every (i,j)-orbit (existence and uniqueness). is_loopless (no operation fixes a chamber), orientations_match, is_weakly_oriented (every edge passes the test against '
         'the vector partial_orientation returns) and is_oriented (their conjunction) are verified bodies.',
    note='Trusted: Verus+Z3, vstd, <[T]>::fill spec, derived Clone; walk(e,[i,j]) by its std semantics. Not decided by contracts (bounded stand-in): '
         'Traversal/orbits/orbit_reps/is_connected/partial_orientation (stateful iterator over BTreeMap/VecDeque/HashSet; is_weakly_oriented is proved relative to the vector partial_orientation returns), PartialDSet::grow; termination of orbit loops; '
